@@ -248,9 +248,15 @@ func main() {
 			runGroup(c, f)
 		}
 	}
+	if dbg == "" {
+		for _, sc := range corpus() {
+			c.Count("B:corpus")
+			runScenario(c, sc)
+		}
+	}
 	for i := 0; i < nSolve; i++ {
 		f := c.Rand.Fork()
-		if dbg == "" || dbg == fmt.Sprint(nGroup+i) {
+		if dbg == "" || dbg == fmt.Sprint(nGroup+len(corpus())+i) {
 			debugDump = dbg != ""
 			runSolve(c, f, i)
 		}
